@@ -91,8 +91,8 @@ class World:
         if name in ('RCA_Supervised',):
           o['chunk_size'] = 2
           o['n_chunks'] = 4
-        if name in ('RCA', 'LFDA', 'Covariance'):
-          pass
+        if name in ('RCA', 'LFDA', 'RCA_Supervised', 'LMNN', 'NCA', 'MLKR'):
+          o['n_components'] = 1      # a reduced transformation (valid for every data set of the world)
       if with_arrays and j == 0:
         d = self.dims[0]
         if name in ('LMNN', 'NCA', 'MLKR'):
